@@ -1,17 +1,21 @@
 (* C17 - property theorems only; each is closed by lemmas of Lemmas.v.
    M ranges over every module description (any parameters over the modelled datatypes), ops over every history of
-   operations, f over every fault (crash before / crash after / OSError at open, any write, close, rename, remove),
+   operations, f over every fault (crash before / crash after / OSError at every file-system call: makedirs and the
+   reading open of start-up, is_dir, open, any write, close, rename, remove),
    n over every chunk count of json.dump, d over every disk.
    All four defects found on the snapshot are repaired in /repo (b610a07, 6518f2a, 66c61e0): there is no Refuted.v any
    more and no theorem carries an exception for a finding. *)
-From Coq Require Import List Arith ZArith NArith Bool Lia.
+From Coq Require Import List Arith ZArith NArith Bool Lia String.
 Import ListNotations.
-Require Import FV.Base.Util FV.Gen.C17 FV.C17.Model FV.C17.Lemmas.
+Require Import FV.Base.Util FV.Gen.C17 FV.C17.Model FV.C17.Lemmas FV.C17.LemmasSeq FV.C17.Counter.
 
 (* obligations on the facts regenerated from /repo (Gen/C17.v): the code has the shape the model assumes *)
 Theorem C17_source_facts :
   change_detection = true /\ pdata_assigned_after_rename = true /\ writes_go_to_tmp = true /\
-  only_rename_writes_target = true /\ rename_after_closed_with_block = true /\ remove_tmp_in_finally = true /\
+  only_rename_writes_target = true /\ target_touched_only_by_final_rename = true /\
+  save_call_sites = ["persistentdir.is_dir"; "persistentdir.mkdir"; "open"; "json.dump"; "f.write"; "os.rename";
+                     "os.remove"]%string /\
+  rename_after_closed_with_block = true /\ remove_tmp_in_finally = true /\
   unreadable_file_is_empty = true /\ nonobject_document_is_unreadable = true /\
   entries_imported_individually = true /\ entries_validated_and_exportable = true /\ cfg_precedes_file = true /\
   given_set_for_configured_values = true /\ save_deferred_while_writes_pending = true /\
@@ -37,6 +41,61 @@ Proof.
   - intros H. destruct (save_file_outcome f data n d) as [H1 H2 H3|H1 H2 H3|o H1 H2 H3]; auto; unfold s in H; congruence.
   - apply save_file_err.
   - intros ->. apply save_file_nofault.
+Qed.
+
+(* CRASH AT EVERY POINT.  The save is the sequence save_ops n of file-system operations (is_dir, open of the
+   temporary file, the n writes, close, rename, remove - compared call by call with what the implementation is
+   recorded to do); a crash point lies before every operation and after the last one.  For every stored file, every
+   new document and every crash index k, the first k operations leave the previous stored file or the complete new
+   document *)
+Theorem C17_crash_atomic_all_points : forall data n d k,
+  let d' := fs_run data n (firstn k (save_ops n)) d in
+  target d' = target d \/ target d' = Some (CW data n n).
+Proof. intros data n d k. apply save_all_points. Qed.
+
+(* the same for ANY sequence of the modelled operations that passes the check seq_safe (the stored file is touched
+   by renames only, and only when the temporary file holds the complete new document): every prefix is safe.
+   save_ops passes it for every n and whatever is known about a stale temporary file *)
+Theorem C17_crash_atomic_any_sequence : forall data n ops t d k,
+  seq_safe n t ops = true -> (forall j, t = Some j -> tmp d = Some (CW data j n)) ->
+  let d' := fs_run data n (firstn k ops) d in
+  target d' = target d \/ target d' = Some (CW data n n).
+Proof.
+  intros data n ops t d k Hs Ht. apply (safe_prefixes data n ops t d k (target d)); auto.
+  destruct t as [j|]; simpl; auto.
+Qed.
+
+Theorem C17_save_ops_safe : forall n t, seq_safe n t (save_ops n) = true.
+Proof. exact save_ops_safe. Qed.
+
+(* the two views of a save agree: without fault the control model (exec, used by the fault theorems above and below)
+   performs exactly the calls save_ops n, in this order, and its disk after any safe sequence - in particular after
+   every prefix-closed part of the save - is the plain file-system run *)
+Theorem C17_fault_free_save_is_save_ops : forall data n d,
+  save_log None data n d = save_ops n /\
+  s_disk (save_file None data n d) = fs_run data n (save_ops n) d.
+Proof.
+  intros data n d. split; [apply save_log_nofault|].
+  unfold save_file.
+  apply (exec_nofault_agrees data n (save_ops n) None (sv0 d)); [apply save_ops_safe|exact I|reflexivity].
+Qed.
+
+(* the obligation behind it: a removal of the stored file before the rename (the portability idiom "os.rename does
+   not overwrite everywhere") is rejected by seq_safe and really breaks the property - a crash between the two calls,
+   or an OSError raised by the rename (the finally clause then removes the temporary file too), leaves no stored
+   file at all although there was one.  Hypothetical sequence, not the code of /repo: the facts
+   only_rename_writes_target, target_touched_only_by_final_rename and save_call_sites fail on such a change *)
+Theorem C17_remove_before_rename_breaks_atomicity :
+  (forall n t, seq_safe n t (save_ops_remove_first n) = false) /\
+  exists data n d,
+    target d <> None /\
+    (exists k, target (fs_run data n (firstn k (save_ops_remove_first n)) d) = None) /\
+    (exists f, let s := fold_left (exec f data n) (save_ops_remove_first n) (sv0 d) in
+               sres_of s = SErr /\ target (s_disk s) = None /\ tmp (s_disk s) = None).
+Proof.
+  split; [exact counter_not_safe|]. exists cx_new, 3, cx_disk. split; [discriminate|]. split.
+  - exists 7. exact counter_crash.
+  - exists (Some (FRename, KErr)). exact counter_ioerror.
 Qed.
 
 (* every operation of every history, with every fault: the stored file stays, or becomes a complete document *)
@@ -155,6 +214,11 @@ Proof. vm_compute. repeat split; reflexivity. Qed.
 
 Print Assumptions C17_source_facts.
 Print Assumptions C17_crash_atomic_save.
+Print Assumptions C17_crash_atomic_all_points.
+Print Assumptions C17_crash_atomic_any_sequence.
+Print Assumptions C17_save_ops_safe.
+Print Assumptions C17_fault_free_save_is_save_ops.
+Print Assumptions C17_remove_before_rename_breaks_atomicity.
 Print Assumptions C17_crash_atomic_step.
 Print Assumptions C17_never_partial.
 Print Assumptions C17_belief_matches_disk.
